@@ -1,6 +1,7 @@
 """C09 - graph.static_order is a duplicate-free, complete dependency order with every cycle cut."""
 from __future__ import annotations
 
+import dataclasses
 import sys
 import typing
 
@@ -27,8 +28,8 @@ ASSUMPTIONS = [
     "a step budget (sys.monitoring PY_START events) decides termination; wall-clock is only a watchdog",
 ]
 PLAN = {"quick": dict(programs=500, topologies=1400, depth=3), "thorough": dict(programs=12000, topologies=40000, depth=5)}
-FLOORS = {"quick": {"sequences_checked": 15000, "deferred_nodes_seen": 3000, "equivalences_checked": 3000, "topology_roots": 8000, "same_name_two_module_topologies": 200},
-          "thorough": {"sequences_checked": 400000, "deferred_nodes_seen": 80000, "equivalences_checked": 80000, "topology_roots": 200000}}
+FLOORS = {"quick": {"sequences_checked": 15000, "deferred_nodes_seen": 3000, "equivalences_checked": 3000, "topology_roots": 8000, "same_name_two_module_topologies": 200, "bare_and_parameterised_roots": 2000},
+          "thorough": {"sequences_checked": 400000, "deferred_nodes_seen": 80000, "equivalences_checked": 80000, "topology_roots": 200000, "bare_and_parameterised_roots": 50000}}
 STEP_BUDGET = 2_000_000
 
 
@@ -208,6 +209,24 @@ def run_shard(sh):
                         nodes = check_root(sh, s.src, s.t, steps, prog.source)
                         if rng.random() < 0.3 and not isinstance(s.t, str):
                             equivalence(sh, prog, s.src, s.src, s.t, nodes, steps)
+                # the unparameterised generic next to a parameterised form of the same origin (either order; as tuple members,
+                # union members and dataclass fields), and two different parameterisations of one origin
+                gens = [s for r in roots for s in r.walk() if s.kind in ("coll", "mapping") and not isinstance(s.t, str) and typing.get_origin(s.t) is not None]
+                for s in rng.sample(gens, min(2, len(gens))):
+                    bare = s.info["ctor"].replace("...", "")
+                    other_param = f"{bare}[int, ...]" if s.info["ctor"].endswith("...") else (f"{bare}[str, int]" if s.kind == "mapping" else f"{bare}[int]")
+                    forms = [f"tuple[{bare}, {s.src}]", f"tuple[{s.src}, {bare}]", f"typing.Union[{bare}, {s.src}]", f"dict[str, {bare}] | {s.src}",
+                             f"tuple[{other_param}, {s.src}]", f"tuple[{s.src}, {other_param}, {bare}]"]
+                    for src in rng.sample(forms, 3):
+                        sh.count("bare_and_parameterised_roots")
+                        check_root(sh, src, prog.ev(src), steps, prog.source)
+                    order = [("raw", prog.ev(bare)), ("items", s.t)]
+                    if rng.random() < 0.5:
+                        order.reverse()
+                    Mixed = dataclasses.make_dataclass(f"Mixed_{i}", order + [("n", int)], module=prog.name)
+                    setattr(prog.module, Mixed.__name__, Mixed)
+                    sh.count("bare_and_parameterised_roots")
+                    check_root(sh, f"dataclass Mixed({', '.join(k for k, _ in order)}) over {bare} and {s.src}", Mixed, steps, prog.source)
                 if i % 50 == 0:
                     sh.sample({"root": roots[0].src, "nodes": [repr(n) for n in graph.static_order(roots[0].t)][:6]})
             finally:
